@@ -131,7 +131,7 @@ pub fn check_history(cfg: &ModelCfg, calls: &[CallRec], out: &mut Outcome) {
 
     for (ci, c) in calls.iter().enumerate() {
         if let CallResult::Panicked(msg) = &c.result {
-            out.violate(&["C07", "C20"], "linebuf.call-panicked", format!("call #{ci} {} panicked: {msg}", kind_name(&c.kind)));
+            out.violate(&["C20"], "linebuf.call-panicked", format!("call #{ci} {} panicked: {msg}", kind_name(&c.kind)));
             return;
         }
         {
